@@ -1,5 +1,6 @@
 import BreezyVerif.Lemmas.C50
 import BreezyVerif.Lemmas.C50M
+import BreezyVerif.Lemmas.C50W
 /-!
 C50 — theorems about the model of `breezy/cmdline.py`.
 
@@ -49,6 +50,25 @@ example : joinSp (["a b".toList, [], "\\\"'\\".toList].map (quote true))
       = "\"a b\" \"\" \"\\\\\\\"'\\\\\"".toList
     ∧ split true (joinSp (["a b".toList, [], "\\\"'\\".toList].map (quote true)))
       = ["a b".toList, [], "\\\"'\\".toList] := by decide
+
+/-- **Unquoted words.**  Non-empty words made of characters outside the quoting
+syntax and of backslashes (literal when no quote follows), separated by
+arbitrary non-empty whitespace (any Unicode whitespace), with optional leading
+and trailing whitespace, are split into exactly these words, none reported as
+quoted.  `items` are (separator-before, word) pairs. -/
+theorem split_unquoted_words (sq : Bool) (items : List (Str × Str)) (trail : Str)
+    (hitems : ∀ p ∈ items, p.1.all isWs = true ∧ p.2 ≠ [] ∧ p.2.all (wordChar sq) = true)
+    (hsep : ∀ p ∈ items.tail, p.1 ≠ [])
+    (htrail : trail.all isWs = true) :
+    tokens sq (wsJoin items ++ trail) = items.map (fun p => (false, p.2)) :=
+  tokens_wsJoin sq trail htrail items hitems hsep
+
+/-- non-vacuity of the hypotheses: `\tfoo\\  \u3000\\\\host\\x\n` -/
+example :
+    let items : List (Str × Str) := [(['\t'], "foo\\".toList), ("  \u3000".toList, "\\\\host\\x".toList)]
+    (∀ p ∈ items, p.1.all isWs = true ∧ p.2 ≠ [] ∧ p.2.all (wordChar true) = true)
+      ∧ (∀ p ∈ items.tail, p.1 ≠ []) ∧ ['\n'].all isWs = true
+      ∧ wsJoin items ++ ['\n'] = "\tfoo\\  \u3000\\\\host\\x\n".toList := by decide
 
 /-- **Nothing invented.**  The concatenation of the tokens is a subsequence of
 the command line. -/
